@@ -18,13 +18,36 @@ GROUPS = [
 ]
 
 
+def table_rows(table):
+    """the bit patterns of a table of Spec/DecTables.v (the hand-written specification), in order"""
+    import os, re
+    src = open(os.path.join(C.VERIF, 'coq', 'theories', 'Spec', 'DecTables.v')).read()
+    i = src.index(f'Definition {table} ')
+    body = src[i:src.index('].', i)]
+    return [re.sub(r'\s', '', m) for m in re.findall(r'row "([01x ]+)"', body)]
+
+
 def cases(rng, tier):
     out = []
     n = 150 if tier == 'quick' else 6000
     for (label, module, fn, kind, table, (mask, value), env) in GROUPS:
+        words = []
+        # every row of the table, and its one-bit neighbours: the words where a missing or wrong test shows
+        for pat in table_rows(table):
+            for rep in range(3 if tier == 'quick' else 40):
+                w = 0
+                for ch in pat:
+                    w = (w << 1) | (int(ch) if ch in '01' else rng.getrandbits(1))
+                words.append(w)
+                fixed = [31 - k for k, ch in enumerate(pat) if ch in '01' and 31 - k < 28]
+                if rep == 0:
+                    for bpos in fixed:
+                        words.append(w ^ (1 << bpos))
         for i in range(n):
-            w = rng.getrandbits(32)
-            r = rng.random()
+            words.append(None)
+        for w0 in words:
+            w = rng.getrandbits(32) if w0 is None else w0
+            r = rng.random() if w0 is None else 1.0
             if r < 0.3:      # registers SP / PC and the special immediates of PUSH/POP single
                 w = (w & ~0x000F0000) | (rng.choice([13, 15]) << 16)
             if r < 0.15:
